@@ -5760,6 +5760,8 @@ class CodegenCtx:
             index = self._generate_code_for_int_expr(intexpr.index, ctx)
             text = self._generate_buflike_index_expr(intexpr.ref, index)
             size_str = self._generate_buflike_length_expr(intexpr.ref)
+            # (uint8_t): elements are bytes whatever the string's character type is (plain char may be signed)
+            text = f"(uint8_t){text}"
             if ProgramData.do(ProgramFlag.UNSAFE_STRING_INDEXING):
                 # (int): the element has the string's character type; used as an index itself it would trip -Wchar-subscripts
                 return f"((int){text})"
